@@ -1274,6 +1274,8 @@ class FnTranslator:
             return self.lvalue_read(sub, e)
         if ck == "NoOp":
             return self.ex(sub, stmt)
+        if ck == "UserDefinedConversion":     # only the conversion operator of an atomic member reaches call()
+            return self.ex(sub, stmt)
         if ck == "ToVoid":
             if stmt:
                 x = sub
@@ -1635,6 +1637,11 @@ class FnTranslator:
         used = set()
         for p in parts:
             self.refs(p, used)
+        if any(self.has_return(p) for p in parts):
+            # an early return builds the function result: the new `this` and the in/out cells are needed
+            if self.fi.mutates and self.fi.rec is not None:
+                used |= {did for (f, t, did) in self.fi.rec.fields if t is not None}
+            used |= {d for d, v in self.vars.items() if v.kind == "cell"}
         inv = [d for d in self.scope if d in used and d not in state]
         for d in state + inv:
             if not self.vars[d].init and d in inv:
